@@ -41,7 +41,7 @@ import vlib
 # schemagen features whose output lies (mostly) in the fragment; what falls outside
 # (by-value recursion, non-ASCII names are rewritten) is filtered by `in_frag` itself
 FEATURES = {"bool", "int", "int_format", "number", "string", "null", "str_enum", "object", "closed_object",
-            "map", "array", "nullable_type", "ref", "recursion", "rename", "str_len", "str_pattern", "int_bounds"}
+            "map", "array", "nullable_type", "ref", "recursion", "rename", "str_len", "str_pattern", "int_bounds", "set", "fixed_array"}
 
 CORPUS = os.path.join(vlib.ROOT, "corpus", "convert")
 
@@ -80,7 +80,10 @@ LEAVES = [
     {"type": "integer", "minimum": 0.5},                  # outside: not an integer bound
     {"type": "integer", "maximum": 1e17},                 # outside: not a safe bound
     {"type": "array", "items": {"type": "boolean"}, "minItems": 1, "maxItems": 4}, {"type": "array", "maxItems": 2},
-    {"type": "array", "items": {"type": "boolean"}, "minItems": 2, "maxItems": 2},   # outside: fixed length
+    {"type": "array", "items": {"type": "boolean"}, "minItems": 2, "maxItems": 2},   # fixed length
+    {"type": "array", "minItems": 3, "maxItems": 3}, {"type": ["array", "null"], "items": {"type": "string", "maxLength": 2}, "minItems": 1, "maxItems": 1},
+    {"type": "array", "items": {"type": "string"}, "uniqueItems": True}, {"type": "array", "uniqueItems": True, "maxItems": 4},
+    {"type": "array", "items": {"type": "integer"}, "uniqueItems": True, "minItems": 2, "maxItems": 2},   # outside
     {"type": "array", "items": {"type": "boolean"}, "minItems": 0, "maxItems": 0},   # outside
     {"type": "object", "additionalProperties": False},
     {"$ref": "#/definitions/B"},
